@@ -479,6 +479,13 @@ func init() {
 					for i := 0; i < 42; i++ {
 						g.Emit("rmar", k, itoa(i), c)
 					}
+				case k == "keys_prefix":
+					for d := 2; d <= 40; d++ {
+						g.Emit("rmar", k, itoa(d), c)
+					}
+					for _, d := range []int{64, 100, 257, 1000} {
+						g.Emit("rmar", k, itoa(d), c)
+					}
 				case strings.HasPrefix(k, "cyc_"):
 					for _, d := range []int{0, 1, 2, 5, 5000} {
 						g.Emit("rmar", k, itoa(d), c)
